@@ -70,11 +70,17 @@ Emit(tag, rec) == IF Export THEN PrintT("@@" \o tag \o "@@" \o ToJson(rec)) ELSE
 
 OpRec(op, n, m, t, x, y) == [op |-> op, n |-> n, m |-> m, t |-> t, x |-> x, y |-> y]
 
+\* compact projection of a state for the export: a cell is an int (a scalar
+\* v >= 0 as v, a reference r as -r), a container <<kind, keys, cells>>
+Code(c) == IF IsRef(c) THEN 0 - c.v ELSE c.v
+Proj(h, nm) ==
+  [h |-> [r \in Ref |-> <<h[r].k, h[r].keys, [i \in DOMAIN h[r].items |-> Code(h[r].items[i])]>>],
+   n |-> <<Code(nm.a), Code(nm.b), Code(nm.s), Code(nm.c)>>]
+
 Finish(h2, nm2, o) ==
   /\ names' = nm2
   /\ heap' = GC(h2, nm2)
-  /\ Emit("EDGE", [pre  |-> [heap |-> heap, names |-> names], op |-> o,
-                   post |-> [heap |-> heap', names |-> names']])
+  /\ Emit("EDGE", [pre |-> Proj(heap, names), op |-> o, post |-> Proj(heap', names')])
 
 \* a documented mutator: the content of the reference n denotes is replaced
 Mutate(n, newc, o) == Finish([heap EXCEPT ![names[n].v] = newc], names, o)
@@ -282,7 +288,7 @@ H(seq) == [r \in Ref |-> IF r <= Len(seq) THEN seq[r] ELSE Free]
 NM(a, b, s, c) == [a |-> a, b |-> b, s |-> s, c |-> c]
 L(items) == MkList(items)
 
-InitStates == {
+InitSeq == <<
   \* one list seen through every kind of name
   [h |-> H(<<L(<<I(1), I(2)>>)>>),                 n |-> NM(R(1), R(1), R(1), R(1))],
   \* a list nested in a list, the inner one also held directly
@@ -302,11 +308,16 @@ InitStates == {
   \* the same list twice inside one list
   [h |-> H(<<L(<<R(2), R(2)>>), L(<<I(1)>>)>>),    n |-> NM(R(1), R(2), Null, Null)],
   \* values of literals (the builder obtains them from lit_str() / lit_list())
-  [h |-> H(<<LitStr, LitList>>),                   n |-> NM(R(1), R(2), Null, Null)] }
+  [h |-> H(<<LitStr, LitList>>),                   n |-> NM(R(1), R(2), Null, Null)] >>
+
+\* INIT_SEL = "0": all of them; "k": only the k-th (the thorough tier explores
+\* one initial graph per TLC run to keep the exported transition lists small)
+InitSel == CHOOSE i \in 0..Len(InitSeq) : ToString(i) = IOEnv.INIT_SEL
+InitStates == IF InitSel = 0 THEN Range(InitSeq) ELSE {InitSeq[InitSel]}
 
 Init == \E g \in InitStates :
           /\ heap = g.h /\ names = g.n
-          /\ Emit("INIT", [heap |-> g.h, names |-> g.n])
+          /\ Emit("INIT", Proj(g.h, g.n))
 
 Spec == Init /\ [][Next]_vars
 
